@@ -1,5 +1,6 @@
 import CkbVerif.Driver.Util
 import CkbVerif.Model.Rules
+import CkbVerif.Model.RulesIndex
 
 /-! Line-protocol driver for C03 (protocol: see harness/n03/src/c03.rs).
 
@@ -8,7 +9,11 @@ cfg k=v …                 consensus parameters that differ from the generated 
 genesis id=0 ts=… work=…   the genesis block, resets the chain                            → ok
 blk <id> k=v …            defines a block (header fields, body features, context oracles) → ok
 submit <id> now=<ms>      HeaderVerifier, then the chain service                          → <verdict> tip=<id> st=<status>
+idx n=<ids> t=<txs> h=<height> e=<epoch>
+                          the store indexes as `attach_block` / `detach_block` left them     → main=… uncles=… at=… tx=… ep=…
 ```
+The index state is driven by the verdicts: every `attached` answer is one new-best-block event
+(`reorg`: detach the old main chain above the common ancestor tip first, attach the new branch).
 -/
 namespace CkbVerif.Driver.C03
 open CkbVerif.Driver CkbVerif.Rules
@@ -17,6 +22,7 @@ structure DS where
   cfg : Cfg := {}
   st : St := St.init {}
   defs : List Blk := []
+  ix : IdxSt := ⟨[], Idx.empty⟩
 
 def kv (ts : List String) (k : String) : Option String :=
   ts.findSome? fun t =>
@@ -161,12 +167,34 @@ def parseCfg (c : Cfg) (ts : List String) : Cfg :=
     mmrActive := kvBool ts "mmr" c.mmrActive
     redeliveryGuard := kvBool ts "guard" c.redeliveryGuard }
 
+/-- length of the common prefix (by id) -/
+def commonPrefix : List Blk → List Blk → Nat
+  | a :: as, b :: bs => if a.id == b.id then commonPrefix as bs + 1 else 0
+  | _, _ => 0
+
+/-- the new-best-block event that leads from the index state's main chain to the main chain of `st` -/
+def follow (ix : IdxSt) (st : St) : IdxSt :=
+  let newChain := ((mainChain st).reverse).drop 1
+  let keep := commonPrefix ix.chain newChain
+  reorg ix keep (newChain.drop keep)
+
+def joinOr (l : List String) : String := if l.isEmpty then "-" else ",".intercalate l
+
+def dumpIdx (x : Idx) (n t h e : Nat) : String :=
+  let ids := List.range n
+  let main := ids.filterMap fun i => (x.numOf i).map fun k => s!"{i}:{k}"
+  let unc := ids.filterMap fun i => (x.uncle i).map fun k => s!"{i}:{k}"
+  let at_ := (List.range (h + 1)).filterMap fun k => (x.hashAt k).map fun i => s!"{k}:{i}"
+  let tx := ((List.range t).map (· + 1)).filterMap fun i => (x.txInfo i).map fun r => s!"{i}:{r.1}:{r.2}"
+  let ep := ((List.range e).map (· + 1)).filterMap fun k => (x.epochAt k).map fun i => s!"{k}:{i}"
+  s!"main={joinOr main} uncles={joinOr unc} at={joinOr at_} tx={joinOr tx} ep={joinOr ep}"
+
 def step (s : DS) (ts : List String) : DS × String :=
   match ts with
   | "cfg" :: rest => ({ s with cfg := parseCfg {} rest }, "ok")
   | "genesis" :: rest =>
     let g := parseBlk (kvNat rest "id" 0) rest
-    ({ s with st := St.init g, defs := [g] }, "ok")
+    ({ s with st := St.init g, defs := [g], ix := ⟨[], idxInit g⟩ }, "ok")
   | "blk" :: id :: rest =>
     match parseNat? id with
     | some id => ({ s with defs := parseBlk id rest :: s.defs }, "ok")
@@ -178,9 +206,12 @@ def step (s : DS) (ts : List String) : DS × String :=
       | some b, some nw =>
         let (st', r) := submit s.cfg s.st nw b
         let stat := if resName r == "err badparent" then "na" else statusOf st' id
-        ({ s with st := st' }, s!"{resName r} tip={st'.tip} st={stat}")
+        let ix' := if r == .attached then follow s.ix st' else s.ix
+        ({ s with st := st', ix := ix' }, s!"{resName r} tip={st'.tip} st={stat}")
       | _, _ => (s, "bad-op")
     | _, _ => (s, "bad-op")
+  | "idx" :: rest =>
+    (s, dumpIdx s.ix.idx (kvNat rest "n" 0) (kvNat rest "t" 0) (kvNat rest "h" 0) (kvNat rest "e" 0))
   | _ => (s, "bad-op")
 
 def main (_args : List String) : IO UInt32 :=
